@@ -83,6 +83,20 @@ class Folder:
     def ev(self, n):
         if isinstance(n, ast.Constant):
             return n.value
+        if isinstance(n, ast.BinOp) and isinstance(n.op, (ast.Mult, ast.Div, ast.Add, ast.Sub)):
+            a, b = self.ev(n.left), self.ev(n.right)
+            if all(isinstance(x, (int, float)) and not isinstance(x, bool) for x in (a, b)):
+                if isinstance(n.op, ast.Div):
+                    if b == 0:
+                        raise _Raised(Outcome("raise", "ZeroDivisionError", n))
+                    return a / b
+                return {ast.Mult: a * b, ast.Add: a + b, ast.Sub: a - b}[type(n.op)]
+            self.fail(n, "arithmetic on non-numbers")
+        if isinstance(n, ast.UnaryOp) and isinstance(n.op, ast.USub):
+            v = self.ev(n.operand)
+            if isinstance(v, (int, float)) and not isinstance(v, bool):
+                return -v
+            self.fail(n, "negation of a non-number")
         if isinstance(n, ast.Name):
             if n.id in self.env:
                 return self.env[n.id]
@@ -97,8 +111,13 @@ class Folder:
             base = self.ev(n.value)
             if isinstance(base, Rec):
                 if n.attr not in base.attrs:
+                    if base.attrs.get("__closed__"):
+                        # the record lists every attribute its class defines: the read raises
+                        raise _Raised(Outcome("raise", "AttributeError", n))
                     self.fail(n, f"attribute {n.attr} is not modelled")
                 return base.attrs[n.attr]
+            if base is None:
+                raise _Raised(Outcome("raise", "AttributeError", n))
             self.fail(n, "attribute of a non-record")
         if isinstance(n, ast.UnaryOp) and isinstance(n.op, ast.Not):
             return not self.truth(n.operand)
@@ -174,10 +193,21 @@ class Folder:
                         return base.attrs[n.args[1].value]
                     if len(n.args) == 3:
                         return self.ev(n.args[2])
+                    if base.attrs.get("__closed__"):
+                        raise _Raised(Outcome("raise", "AttributeError", n))
                     self.fail(n, f"attribute {n.args[1].value} is not modelled")
                 if len(n.args) == 3:
                     return self.ev(n.args[2])
+                if base is None:
+                    raise _Raised(Outcome("raise", "AttributeError", n))
                 self.fail(n, "getattr of a non-record")
+            if f == "hasattr" and len(n.args) == 2 and isinstance(n.args[1], ast.Constant):
+                base = self.ev(n.args[0])
+                if isinstance(base, Rec) and base.attrs.get("__closed__"):
+                    return n.args[1].value in base.attrs
+                if base is None or isinstance(base, (str, int, float)):
+                    return False
+                self.fail(n, "hasattr of a value whose attributes are not modelled")
             if f == "isinstance" and len(n.args) == 2:
                 base = self.ev(n.args[0])
                 cls = norm(n.args[1])
@@ -207,6 +237,18 @@ class Folder:
                 if isinstance(s, str) and isinstance(a, (str, tuple)):
                     return getattr(s, n.func.attr)(a)
                 self.fail(n, "string test on a non-string")
+            if isinstance(n.func, ast.Name) and callable(self.globals.get(n.func.id)):
+                # a constructor the rule models (e.g. Unit(...)): its arguments are values, not conditions
+                args = [self.ev_or_opaque(a) for a in n.args]
+                kws = {k.arg: self.ev_or_opaque(k.value) for k in n.keywords if k.arg is not None}
+                if any(k.arg is None for k in n.keywords):
+                    self.fail(n, "**kwargs in a modelled constructor call")
+                return self.globals[n.func.id](*args, **kws)
+            if isinstance(n.func, ast.Attribute) and n.func.attr == "copy" and not n.args and not n.keywords:
+                base = self.ev(n.func.value)
+                if isinstance(base, Rec):
+                    return base
+                self.fail(n, ".copy() of a non-record")
             if isinstance(n.func, ast.Name) and n.func.id in self.mod.funcs and self.depth < 3:
                 callee = self.mod.funcs[n.func.id][0]
                 args = [self.ev(a) for a in n.args]
@@ -266,6 +308,22 @@ class Folder:
                     return r.outcome
                 continue
             if isinstance(st, ast.Pass):
+                continue
+            if isinstance(st, ast.Try) and not st.finalbody:
+                try:
+                    r = self.run(st.body)
+                    if r is None and st.orelse:
+                        r = self.run(st.orelse)
+                except _Raised as ex:
+                    r = ex.outcome
+                if r is not None and r.kind == "raise":
+                    for h in st.handlers:
+                        names = [] if h.type is None else ([norm(e) for e in h.type.elts] if isinstance(h.type, ast.Tuple) else [norm(h.type)])
+                        if h.type is None or r.value in names or "Exception" in names:
+                            r = self.run(h.body)
+                            break
+                if r is not None:
+                    return r
                 continue
             self.fail(st, "statement not modelled")
         return None
